@@ -232,9 +232,7 @@ func raceSummary(report string) string {
 				if strings.Contains(fn, "zzverif/") || strings.HasPrefix(fn, "runtime.") || strings.HasPrefix(fn, "sync") {
 					continue
 				}
-				if p := strings.Index(fn, "("); p > 0 {
-					fn = fn[:p]
-				}
+				fn = strings.TrimSuffix(fn, "()")
 				fr = append(fr, k+" "+fn)
 				break
 			}
